@@ -241,7 +241,7 @@ def run(chk):
     allprims = [{"k": "prim", "n": n} for n in prims]
     cases = [(t, None, False) for t in allprims + trees + extra]
     configs = tuple(sorted(set(c for r in res.replays for c in r.get("configs", []))) or ["base", "mapped", "prefixed"])      # MC_C05!Configs
-    events, meta = typecases.run_trees(chk, cases, configs=configs)
+    events, meta = typecases.run_trees(chk, cases, configs=configs, siblings={typecases.rust_text(c["rust"]): c["sibling"] for c in res.replays if "sibling" in c})
     idx, rejected = validate(chk, events, meta, "Trace_C05", "types")
     good_pairs = set()
     for i in idx:
